@@ -304,6 +304,11 @@ def check(tier="quick", seed=0, workers=None, only=None):
             v["signature"] = dict(v["signature"], kind="multiplexed-body")
             viols.append(v)
     st.merge_from(cst)
+    # the real sync / anyio / trio backends under the framings that depend on their end-of-stream convention
+    from . import backends
+    bst, binfo = backends.run_for(tier, seed, workers, only, purpose="framings") if not only else (engine.Stats(bound=None), {})
+    viols += common.collect(bst, ("C02",))
+    st.merge_from(bst)
     cov = evidence.stats_coverage(
         st,
         rule=("one scenario = one generated well-formed response x {sync,async} x {request(),stream()} (HTTP/1.1) or one HTTP/2 frame script; "
@@ -312,7 +317,7 @@ def check(tier="quick", seed=0, workers=None, only=None):
               "a frontier that drains = every segmentation and truncation point of that response; non-trivial = outcome class of an "
               "execution with more than one read or a truncation"),
         extra={"scenarios": len(allsp), "http11_scenarios": len(sp), "http2_scenarios": len(sp2), "merge_selftest": mt,
-               "responses_in_corpus": len(corpus(tier)), "multiplexed_http2": cinfo})
+               "responses_in_corpus": len(corpus(tier)), "multiplexed_http2": cinfo, "real_backends_framings": binfo})
     return {"level": "model_checking", "coverage": cov, "violations": viols,
             "assumptions": ["the peer sends exactly the scripted well-formed response; bytes lost on peer death are never delivered",
                             "the inlined list comprehension inside Response.read() keeps its partial list on the evaluation stack where the fingerprint cannot see it; "
